@@ -31,6 +31,82 @@ _IDENT_TYPES = re.compile(r"^&*(mut )?(usize|u8|u16|u32|u64|u128|isize|i8|i16|i3
 _NUM_TYPES = re.compile(r"^&*(mut )?(usize|u8|u16|u32|u64|u128|isize|i8|i16|i32|i64|i128|bool)$")
 
 
+PROG_FOR_IDENT = []      # the program being inventoried (set by p1_inventory), for caller look-ups
+
+
+def _const_strs(body, local, depth):
+    """(string constants that can flow into `local`, whether anything else can): follows moves / borrows / derefs and tuple fields
+    inside the body and, for a parameter of a private function, the arguments of every caller"""
+    consts, other = [], False
+    seen = set()
+    work = [(local, None)]
+    params = set()
+    while work:
+        l, fld = work.pop()
+        if (l, fld) in seen:
+            continue
+        seen.add((l, fld))
+        if 1 <= l <= body.arg_count:
+            params.add(l)
+            continue
+        ds = body.defs().get(l, [])
+        if not ds:
+            other = True
+        for (_i, j_, d_) in ds:
+            if j_ == "term":
+                if re.search(r"Deref>::deref$|::as_str$|AsRef<.*>>::as_ref$", callee_name(d_) or "") and d_["args"]:
+                    p0 = op_place(d_["args"][0])
+                    if p0 is not None:
+                        work.append((p0["l"], None))
+                    continue
+                other = True
+                continue
+            rv = d_["rv"]
+            if rv["k"] == "Aggregate" and rv.get("agg") == "Tuple" and fld is not None and fld < len(rv.get("ops", [])):
+                ops = [rv["ops"][fld]]
+            elif rv["k"] in ("Use", "Cast", "CopyForDeref"):
+                ops = rv.get("ops", [])
+            elif rv["k"] == "Ref":
+                pl = rv["place"]
+                f2 = next((int(x[1:]) for x in pl["p"] if x.startswith(".") and x[1:].isdigit()), None)
+                work.append((pl["l"], f2 if f2 is not None else fld))
+                continue
+            else:
+                other = True
+                continue
+            for o2 in ops:
+                c2 = op_const(o2)
+                if c2 and "str" in c2:
+                    consts.append(c2["str"])
+                elif c2 is not None:
+                    other = True
+                else:
+                    p2 = op_place(o2)
+                    if p2 is None:
+                        other = True
+                    else:
+                        f2 = next((int(x[1:]) for x in p2["p"] if x.startswith(".") and x[1:].isdigit()), None)
+                        work.append((p2["l"], f2 if f2 is not None else fld))
+    for l_ in params:
+        cs = list(PROG_FOR_IDENT[0].callers_of(re.escape(body.name) + "$")) if PROG_FOR_IDENT and not body.is_pub and depth > 0 else []
+        if not cs:
+            other = True
+        for (cb, _ci, ct) in cs:
+            ca = ct["args"][l_ - 1] if l_ - 1 < len(ct["args"]) else None
+            cc = op_const(ca) if ca is not None else None
+            if cc and "str" in cc:
+                consts.append(cc["str"])
+                continue
+            pl2 = op_place(ca) if ca is not None else None
+            if pl2 is None:
+                other = True
+                continue
+            c3, o3 = _const_strs(cb, pl2["l"], depth - 1)
+            consts += c3
+            other = other or o3 or not c3
+    return consts, other
+
+
 def _ident_always_valid(ast, b, site):
     """a `format_ident!` whose result is an identifier whatever the run-time values: the template consists of identifier
     characters and placeholders, starts with a letter / underscore (or with a placeholder filled by an identifier), and every
@@ -39,11 +115,29 @@ def _ident_always_valid(ast, b, site):
     from astlib import find_all
     line = site["line"]
     tys = []
+    from mirlib import backward_slice as _bs
     for blk in b.blocks:
         for st in blk["stmts"]:
             if st.get("k") == "Assign" and st.get("line") == line and st["rv"].get("k") == "Aggregate" and st["rv"].get("adt") == "quote::__private::IdentFragmentAdapter" and not st["place"]["p"]:
                 m = re.match(r"^quote::__private::IdentFragmentAdapter<(.*)>$", b.local_ty(st["place"]["l"]))
-                tys.append(m.group(1) if m else "?")
+                ty = m.group(1) if m else "?"
+                if re.match(r"^&*str$", ty):
+                    # text: fine when every value that can flow here is a string *constant* of identifier characters (e.g. a name picked
+                    # by a match over literals, or a literal passed by every caller of this private helper) - nothing computed, nothing
+                    # from the input
+                    consts, other = [], False
+                    for o in st["rv"].get("ops", []):
+                        c0 = op_const(o)
+                        if c0 and "str" in c0:
+                            consts.append(c0["str"])
+                        pl = op_place(o)
+                        if pl is not None:
+                            c1, o1 = _const_strs(b, pl["l"], 2)
+                            consts += c1
+                            other = other or o1
+                    if consts and not other and all(re.match(r"^[A-Za-z0-9_]+$", c_) for c_ in consts):
+                        ty = "usize"              # treated like a number: identifier characters only
+                tys.append(ty)
     macros = []
     for f in ast.fns:
         if f.file == b.file and f.body is not None and not f.is_test():
@@ -127,6 +221,7 @@ def p1_inventory(ctx, cfgs):
     seen_keys = set()
     for cfg in cfgs:
         prog = ctx.mir(cfg)
+        PROG_FOR_IDENT[:] = [prog]
         counts = Counter()
         lines = defaultdict(list)
         for b in loading_bodies(prog):
